@@ -250,7 +250,7 @@ fn own_view(b: &[u8]) -> Option<(Vec<u8>, u64)> {
     Some((s.str_payload(b), c.arg))
 }
 
-const ENTRIES: [&str; 6] = ["ByronAddress::from_bytes", "ByronAddress::from_base58", "Address::from_bytes", "Address::from_hex", "Address::from_str(base58)", "Address::from_str(hex)"];
+const ENTRIES: [&str; 8] = ["ByronAddress::from_bytes", "ByronAddress::from_base58", "Address::from_bytes", "Address::from_hex", "Address::from_str(base58)", "Address::from_str(hex)", "Address::try_from(&[u8])", "Address::try_from(&[u8]) of hex-decoded text"];
 
 enum Parsed {
     Byron(ByronAddress),
@@ -266,7 +266,9 @@ fn parse_via(entry: usize, bytes: &[u8], b58: &str, hx: &str) -> Parsed {
         2 => Address::from_bytes(bytes).ok(),
         3 => Address::from_hex(hx).ok(),
         4 => Address::from_str(b58).ok(),
-        _ => Address::from_str(hx).ok(),
+        5 => Address::from_str(hx).ok(),
+        6 => Address::try_from(bytes).ok(),
+        _ => hex::decode(hx).ok().and_then(|v| Address::try_from(v.as_slice()).ok()),
     });
     match r {
         Err(p) => Parsed::Panicked(p),
